@@ -7,22 +7,20 @@ Local Open Scope bool_scope.
 Set Default Timeout 120.
 
 (* ================================================================== kPathCover *)
-Definition deviates_kPathCover (i : input) := dev_expand i.
 Theorem validate_sound_kPathCover i : validate_kPathCover i = RaiseValueError -> in_domain_kPathCover i = false.
 Proof. intros H. destruct (in_domain_kPathCover i) eqn:D; [exfalso|reflexivity]. sound_script i. Qed.
-Theorem validate_complete_kPathCover i :
-  in_domain_kPathCover i = false -> deviates_kPathCover i = false -> validate_kPathCover i = RaiseValueError.
-Proof. intros D V. unfold deviates_kPathCover in V. complete_script i. Qed.
+Theorem validate_complete_kPathCover i : in_domain_kPathCover i = false -> validate_kPathCover i = RaiseValueError.
+Proof. intros D. complete_script i. Qed.
 Theorem accepts_domain_kPathCover i : in_domain_kPathCover i = true -> validate_kPathCover i = Accept.
 Proof. intros D. accept_script i. Qed.
 
 (* ================================================================== MinPathCover *)
-Definition deviates_MinPathCover (i : input) := dev_expand i || negb (search_enters i).
+Definition deviates_MinPathCover (i : input) := negb (search_enters i).
 Theorem validate_sound_MinPathCover i : validate_MinPathCover i = RaiseValueError -> in_domain_MinPathCover i = false.
 Proof. intros H. destruct (in_domain_MinPathCover i) eqn:D; [exfalso|reflexivity]. sound_script i. Qed.
 Theorem validate_complete_MinPathCover i :
   in_domain_MinPathCover i = false -> deviates_MinPathCover i = false -> validate_MinPathCover i = RaiseValueError.
-Proof. intros D V. unfold deviates_MinPathCover in V. split_dev V. norm_hyps. complete_script i. Qed.
+Proof. intros D V. unfold deviates_MinPathCover in V. norm_hyps. complete_script i. Qed.
 Theorem accepts_domain_MinPathCover i :
   in_domain_MinPathCover i = true -> search_enters i = true -> validate_MinPathCover i = Accept.
 Proof. intros D S. accept_script i. Qed.
@@ -45,7 +43,7 @@ Proof.
 Qed.
 
 (* ================================================================== kFlowDecompCycles *)
-Definition deviates_kFlowDecompCycles (i : input) := all_ignored i || dev_expand i || dev_noncons i.
+Definition deviates_kFlowDecompCycles (i : input) := all_ignored i || dev_noncons i.
 Theorem validate_sound_kFlowDecompCycles i :
   validate_kFlowDecompCycles i = RaiseValueError -> in_domain_kFlowDecompCycles i = false.
 Proof. intros H. destruct (in_domain_kFlowDecompCycles i) eqn:D; [exfalso|reflexivity]. sound_script i. Qed.
@@ -62,38 +60,36 @@ Theorem validate_kFlowDecompCycles_refuted_nonconserving :
 Proof. exists (set_flags ex_graph false false true [true; true]). vm_compute. auto. Qed.
 
 (* ================================================================== kLeastAbsErrorsCycles / kMinPathErrorCycles *)
-Definition deviates_kErrCycles (i : input) := all_ignored i || dev_expand i.
+Definition deviates_kErrCycles (i : input) := all_ignored i.
 Theorem validate_sound_kErrCycles i : validate_kErrCycles i = RaiseValueError -> in_domain_kErrCycles i = false.
 Proof. intros H. destruct (in_domain_kErrCycles i) eqn:D; [exfalso|reflexivity]. sound_script i. Qed.
 Theorem validate_complete_kErrCycles i :
   in_domain_kErrCycles i = false -> deviates_kErrCycles i = false -> validate_kErrCycles i = RaiseValueError.
-Proof. intros D V. unfold deviates_kErrCycles in V. split_dev V. complete_script i. Qed.
+Proof. intros D V. unfold deviates_kErrCycles in V. complete_script i. Qed.
 Theorem accepts_domain_kErrCycles i :
   in_domain_kErrCycles i = true -> has_live i = true -> validate_kErrCycles i = Accept.
 Proof. intros D L. rewrite has_live_all_ignored in L. apply negb_true_iff in L. accept_script i. Qed.
 
 (* ================================================================== kPathCoverCycles *)
-Definition deviates_kPathCoverCycles (i : input) := dev_expand i.
 Theorem validate_sound_kPathCoverCycles i :
   validate_kPathCoverCycles i = RaiseValueError -> in_domain_kPathCoverCycles i = false.
 Proof. intros H. destruct (in_domain_kPathCoverCycles i) eqn:D; [exfalso|reflexivity]. sound_script i. Qed.
 Theorem validate_complete_kPathCoverCycles i :
-  in_domain_kPathCoverCycles i = false -> deviates_kPathCoverCycles i = false ->
-  validate_kPathCoverCycles i = RaiseValueError.
-Proof. intros D V. unfold deviates_kPathCoverCycles in V. complete_script i. Qed.
+  in_domain_kPathCoverCycles i = false -> validate_kPathCoverCycles i = RaiseValueError.
+Proof. intros D. complete_script i. Qed.
 Theorem accepts_domain_kPathCoverCycles i :
   in_domain_kPathCoverCycles i = true -> validate_kPathCoverCycles i = Accept.
 Proof. intros D. accept_script i. Qed.
 
 (* ================================================================== MinPathCoverCycles *)
-Definition deviates_MinPathCoverCycles (i : input) := dev_expand i || negb (search_enters i).
+Definition deviates_MinPathCoverCycles (i : input) := negb (search_enters i).
 Theorem validate_sound_MinPathCoverCycles i :
   validate_MinPathCoverCycles i = RaiseValueError -> in_domain_MinPathCoverCycles i = false.
 Proof. intros H. destruct (in_domain_MinPathCoverCycles i) eqn:D; [exfalso|reflexivity]. sound_script i. Qed.
 Theorem validate_complete_MinPathCoverCycles i :
   in_domain_MinPathCoverCycles i = false -> deviates_MinPathCoverCycles i = false ->
   validate_MinPathCoverCycles i = RaiseValueError.
-Proof. intros D V. unfold deviates_MinPathCoverCycles in V. split_dev V. norm_hyps. complete_script i. Qed.
+Proof. intros D V. unfold deviates_MinPathCoverCycles in V. norm_hyps. complete_script i. Qed.
 Theorem accepts_domain_MinPathCoverCycles i :
   in_domain_MinPathCoverCycles i = true -> search_enters i = true -> validate_MinPathCoverCycles i = Accept.
 Proof. intros D S. accept_script i. Qed.
